@@ -54,8 +54,8 @@ impl Monitor for C19 {
     }
     fn cases(&self, tier: Tier) -> u64 {
         match tier {
-            Tier::Quick => 12_000,
-            Tier::Thorough => 400_000,
+            Tier::Quick => 80_000,
+            Tier::Thorough => 1_500_000,
         }
     }
     fn required_counters(&self) -> Vec<&'static str> {
